@@ -208,7 +208,7 @@ def policy_on_raise(ctx, cfg, cap, cont, msg):
     too_small = (ctx.excess(first, 'lo') < 0) & (ctx.excess(first, 'hi') < 0)
     last = allowed_indices(dom, cap)[-1]
     # "no candidate can meet the limits": the largest allowed one fails and so does every candidate that was evaluated
-    evaluated_fail = [ctx.excess(i, hk) > 0 for (i, hk) in list(ctx.vals) if hk == 'hi']
+    evaluated_fail = [ctx.excess(i, hk) > 0 for (i, hk) in sorted(set(ctx.evals)) if hk == 'hi']   # evaluated by the code (ctx.vals also holds values that only assumptions created)
     too_large = conj([ctx.excess(ctx.field_idx(dom[last]), 'hi') > 0] + evaluated_fail)
     not_cont = ~cont if isinstance(cont, SymBool) else (not cont)
     return conj([not_cont, disj([too_small, too_large])])
@@ -311,7 +311,7 @@ def all_units(prop, keys, tier):
     for k, lot in enumerate(LOTS_ZD if tier == 'thorough' else LOTS_ZD[:2]):
         cfg = dict(kind='zd_zoned', p=lot, cap=None, cont=False)
         us.append(unit('bizoned_any_%d' % k, cfg, keys, 'bi-zoned list for lot %s (BisectionZD), all sign patterns' % lot, max_seconds=1500))
-    for k, pl in enumerate(POLY if tier == 'thorough' else POLY[:1]):
+    for k, pl in enumerate(POLY[:1]):      # POLY[1] (L-shaped lot, two lists searched in succession) needs > 25 min for all sign patterns: not registered
         cfg = dict(kind='zd_poly', p=pl, cap=None, cont=False)
         us.append(unit('poly_any_%d' % k, cfg, keys, 'polygon-constrained nested lists (BisectionZD), all sign patterns', max_seconds=1500))
     cfg = dict(kind='ns', p=dict(n=2), cap=None, cont='sym')
